@@ -3,6 +3,13 @@
 import json, sys
 
 CLAIMED = {
+ "C07": dict(
+   category="model_checking",
+   text="Explicit-state BFS to closure (5 systems quick ~26 000 states, 9 thorough) over the real ObjectDeployment and ObjectSet controllers: template edit sequences over {T1{a,b}, T2{a,c}, no phases} including reverting (2-3 edits), reconciles in any order, every fault kind (error before effect, effect with lost response, crash) at every request of the deployment's pass, a deployment pass whose List does not yet show the ObjectSet a preceding pass created (the staleness the code handles), pause/unpause, and pre-seeded name clashes (archived / different spec / controlled by someone else). Monitor on every deployment pass, from the statement: a create happens only when unpaused, all existing revisions have reported, the template has phases; the created spec equals the template and previous names every existing ObjectSet; at most one create per pass; an unmatched template with all preconditions met leads to a create (or a clash); a clash with an archived / differing / foreign ObjectSet bumps the collision counter instead of being accepted. State invariant: reported revision numbers are pairwise distinct and greater than those of the ObjectSets in previous.",
+   design_ref="DESIGN.md §7 C07",
+   note="Trusted: kmodel; cache staleness only in the create-not-yet-visible window without an intervening template edit (an edit inside that window is recorded as observation N16 in DESIGN.md, outside the quantifier).",
+   technique="explicit-state model checking (BFS) with fault enumeration at every API call, trace monitor + state invariant",
+   engine="world"),
  "C02": dict(
    category="model_checking",
    text="(a) Explicit-state BFS to closure over revision chains r1{a,b} <- r2{a,b,c} <- r3{a,c,d} of hand-made ObjectSets with previous lists (each revision's phase local or delegated; collisionProtection Prevent / IfNoController / None) and over an ObjectDeployment rolling T1{a,b} -> T2{a,c} -> T1: reconciles of all ObjectSets, ObjectSetPhases and the ObjectDeployment in every order, the user pausing / archiving / deleting any revision mid-handover, garbage collector. (b) Stateless exploration at API-call granularity: two revisions' passes as threads with a scheduling point before every request, all interleavings with <= 2 (quick) / 3 (thorough) preemptions after atomic warm-up prefixes. Monitor on every effective write to a managed object: the recorded revision never decreases; at most one controller afterwards; when the controller changes, the new one is the writing ObjectSet/phase, the object's previous revision is not higher than the writer's, and every former controller is still listed as plain owner. State invariant: no object is controlled by an owner whose revision is lower than the object's recorded revision.",
